@@ -27,6 +27,9 @@ type World struct {
 type needAtoms struct{ a, b string }
 type needFlag struct{ f string }
 
+// Skip is raised by a spec for worlds outside its domain (e.g. degenerate intervals): they are not compared.
+type Skip struct{}
+
 // Unsupported is raised for constructs outside the fragment.
 type Unsupported struct{ Msg string }
 
@@ -279,6 +282,7 @@ type Result struct {
 	Mismatch   string // non-empty: description of the first world where code and spec disagree
 	Undecided  string // non-empty: why the instance could not be decided
 	Mismatches int
+	Skipped    int
 }
 
 // Func is something the evaluator can run in a world: returns the boolean result.
@@ -294,9 +298,10 @@ func Decide(code, spec Func) (res Result) {
 			return
 		}
 		restart := false
-		res.Cases, res.Mismatches, res.Mismatch = 0, 0, ""
+		res.Cases, res.Mismatches, res.Mismatch, res.Skipped = 0, 0, "", 0
 		for _, w := range ws {
 			var got, want bool
+			skipped := false
 			need := func(f Func) (v bool, again bool) {
 				defer func() {
 					if r := recover(); r != nil {
@@ -309,6 +314,8 @@ func Decide(code, spec Func) (res Result) {
 							again = true
 						case Unsupported:
 							res.Undecided = x.Msg
+						case Skip:
+							skipped = true
 						default:
 							panic(r)
 						}
@@ -330,6 +337,10 @@ func Decide(code, spec Func) (res Result) {
 			}
 			if res.Undecided != "" {
 				return
+			}
+			if skipped {
+				res.Skipped++
+				continue
 			}
 			res.Cases++
 			if got != want {
@@ -387,10 +398,7 @@ func (e *Eval) FuncOf(decl *ast.FuncDecl, info *types.Info) Func {
 		en := &env{vars: map[types.Object]val{}, info: info, w: w, ev: e}
 		bindParams(en, decl, info, nil, nil)
 		v := en.runBody(decl.Body)
-		if v.kind != 'b' {
-			panic(Unsupported{"function does not reduce to a boolean"})
-		}
-		return v.b
+		return en.boolOf(v, nil)
 	}
 }
 
@@ -407,10 +415,7 @@ func (e *Eval) LitOf(lit *ast.FuncLit, info *types.Info) Func {
 			}
 		}
 		v := en.runBody(lit.Body)
-		if v.kind != 'b' {
-			panic(Unsupported{"literal does not reduce to a boolean"})
-		}
-		return v.b
+		return en.boolOf(v, nil)
 	}
 }
 
@@ -550,6 +555,9 @@ func (en *env) boolOf(v val, at ast.Expr) bool {
 		return v.b
 	case 'a':
 		return en.w.Flag(v.a)
+	}
+	if at == nil {
+		panic(Unsupported{"value does not reduce to a boolean"})
 	}
 	panic(Unsupported{"condition is not boolean: " + types.ExprString(at)})
 }
